@@ -39,6 +39,18 @@ pub struct Mfi {
 	/// implementation reading (recorded discrepancies): sums plain volume instead of tp*volume, and answers
 	/// 0.5 whenever the negative flow of the window is exactly zero
 	follow_impl: bool,
+	/// implementation reading only: the running negative flow as the implementation maintains it
+	/// (+ entering - leaving, rounded in the value type), which is what its `== 0` test looks at
+	nmf_sim: f64,
+}
+
+/// round to the value type of the build under test
+fn rnd(x: f64) -> f64 {
+	if crate::eps() > 1e-10 {
+		x as f32 as f64
+	} else {
+		x
+	}
 }
 
 pub fn make(cfg: &Cfg, c0: &RC) -> Option<Box<dyn IndRef>> {
@@ -68,6 +80,7 @@ fn build(cfg: &Cfg, c0: &RC, follow_impl: bool) -> Option<Box<dyn IndRef>> {
 		x_upper: CrossD::new(f64::NAN),
 		x_lower: CrossD::new(f64::NAN),
 		follow_impl,
+		nmf_sim: 0.0,
 	}))
 }
 
@@ -83,8 +96,16 @@ impl IndRef for Mfi {
 		let (mf, zero) = if !self.follow_impl { (c.tp() * Q::exact(c.v), c.v == 0.0 || s == 0.0) } else { (Q::exact(c.v), c.v == 0.0) };
 		self.mag = self.mag.max(mf.v.abs());
 		self.bars.push_back(Bar { dir, ambiguous, mf, zero });
+		let mut left_neg = 0.0;
 		while self.bars.len() > self.n {
-			self.bars.pop_front();
+			let b = self.bars.pop_front().unwrap();
+			if b.dir == -1 {
+				left_neg = b.mf.v;
+			}
+		}
+		if self.follow_impl {
+			let neg = if dir == -1 { mf.v } else { 0.0 };
+			self.nmf_sim = rnd(self.nmf_sim + rnd(neg - left_neg));
 		}
 
 		let upper = Q::exact(1.0 - self.zone).widen(2.0 * crate::eps());
@@ -96,8 +117,12 @@ impl IndRef for Mfi {
 		let no_flow = self.bars.iter().all(|b| b.dir == 0 || b.zero);
 		self.defined = !undecided && !no_flow;
 		if self.follow_impl && !undecided && self.bars.iter().all(|b| b.dir != -1 || b.zero) {
-			// implementation reading: negative flow exactly zero -> ratio 1 -> 0.5
+			// implementation reading: negative flow exactly zero -> ratio 1 -> 0.5; the test is made on the
+			// running sum, where a rounding residue of flows that have left the window defeats it
 			self.defined = true;
+			if self.nmf_sim != 0.0 {
+				return vec![upper, Q::undefined(), lower];
+			}
 			return vec![upper, Q::exact(0.5), lower];
 		}
 		if !self.defined {
